@@ -37,6 +37,11 @@ func (f *Fam) genInit(r *rand.Rand) string {
 	perm := r.Perm(NKeys)
 	for i, ki := range perm {
 		bal := pick(r, 0, 1, 999999, 1000000, 10000000, 100000000, 1000000000, int64(r.Intn(50000000)))
+		if ki == NKeys-1 && i >= nv && r.Intn(3) == 0 {
+			// a whale: can afford a stake whose consensus power does not fit an int64
+			fmt.Fprintf(&sb, " acc %s 10000000000000000000000000", hx(Keys[ki].Addr))
+			continue
+		}
 		fmt.Fprintf(&sb, " acc %s %d", hx(Keys[ki].Addr), bal)
 		if i < nv {
 			tok := ms + pick(r, 1, 1, 2, 999999, 1000000, 5000000, 1+int64(r.Intn(20000000)))
@@ -138,6 +143,20 @@ func maxi(a, b int64) int64 {
 }
 
 func (f *Fam) genTx(r *rand.Rand, s *Snapshot) string {
+	// replay of an earlier transaction, byte for byte (same entropy, same signature)
+	if len(f.gen.past) > 0 && r.Intn(14) == 0 {
+		old := f.gen.past[r.Intn(len(f.gen.past))]
+		m := []string{"deliver", "deliver", "check", "simulate"}[r.Intn(4)]
+		return "tx " + m + " " + old
+	}
+	line := f.genTx1(r, s)
+	if w := strings.SplitN(line, " ", 3); len(w) == 3 && len(f.gen.past) < 200 {
+		f.gen.past = append(f.gen.past, w[2])
+	}
+	return line
+}
+
+func (f *Fam) genTx1(r *rand.Rand, s *Snapshot) string {
 	mode := "deliver"
 	switch r.Intn(12) {
 	case 0:
@@ -209,6 +228,13 @@ func (f *Fam) genTx(r *rand.Rand, s *Snapshot) string {
 		amt := sdk.NewInt(pick(r, ms, ms, ms+1, ms-1, 2*ms, ms+int64(r.Intn(3000000)), 1, 0))
 		if r.Intn(5) == 0 {
 			amt = amtNear(bal.SubRaw(pick(r, 0, f.feeBase)))
+		}
+		if bal.GT(sdk.NewInt(1).MulRaw(1000000000000000000)) && r.Intn(2) == 0 {
+			// power 2^63 (or one less): the handler moves the coins and then panics on the power key
+			amt = mustInt("9223372036854775808000000")
+			if r.Intn(3) == 0 {
+				amt = mustInt("9223372036854775807999999")
+			}
 		}
 		fields = fmt.Sprintf("key=%d amt=%s", ki, amt)
 	case x < 40:
